@@ -23,6 +23,9 @@ enum Op {
     SetWeight(usize, usize, i32),
     /// set the weight to the next representable float above the current one
     NudgeWeight(usize, usize),
+    /// remove an existing edge and add it again with the SAME weight: the graph is the same graph again
+    /// (only the order inside the adjacency lists may differ), every earlier equal snapshot must still be equal
+    ReAddEdge(usize, usize),
     Snapshot,
 }
 
@@ -120,7 +123,17 @@ impl H {
                     self.real.set_weight(&o, &d, 1.0);
                 }
             }
+            Op::ReAddEdge(a, b) => {
+                let (o, d) = (self.id(*a), self.id(*b));
+                if let Some(w) = self.model.edges.get(&(o, d)).copied() {
+                    self.real.remove_edge(o, d);
+                    self.real.add_edge(o, d, fl(w));
+                }
+            }
             Op::Snapshot => {
+                if self.snaps.len() >= 3 {
+                    self.snaps.remove(1); // keep the first and the two most recent
+                }
                 self.snaps.push((self.real.clone(), self.model.clone()));
             }
         }
@@ -457,6 +470,12 @@ pub fn run(ctx: &mut Ctx) {
                 h.push(Op::AddNode(r.range(0, 3) as i32));
             } else if r.chance(1, 4) {
                 h.push(Op::AddEdge(r.below(13), r.below(13), r.below(9) as i32));
+            } else if r.chance(1, 8) {
+                // few destinations, so that several edges share one (their list order matters to a careless diff)
+                h.push(Op::AddEdge(r.below(13), r.below(2), 3));
+                h.push(Op::Snapshot);
+            } else if r.chance(1, 8) {
+                h.push(Op::ReAddEdge(r.below(13), r.below(2)));
             } else {
                 h.push(r.pick(&big).clone());
             }
